@@ -1,8 +1,8 @@
-//! C06 (server side): the production SessionTask with RTU framing over the scripted transport:
-//! requests come in as a chunk schedule, replies and handler calls are observed.
+//! C05 / C06 (server role): the production SessionTask with MBAP or RTU framing over the scripted
+//! transport: requests come in as a chunk schedule, replies and handler calls are observed.
 //! The handler serves units 1 and 2: coil/discrete a -> (a % 3 == 0), register a -> a * 31 + 7 (mod 2^16),
 //! addresses >= 60000 -> IllegalDataAddress; writes are accepted and counted.
-//! input line:  <eof|pending|err> <chunk hex | -> ...
+//! input line:  <tcp|rtu> <eof|pending|err> <chunk hex | -> ...
 //! output line: calls=<n> replies=<hex,hex,..|-> end=<terminal error class as in `frames`>
 //! optional argument: --decode min|max
 use crate::util::{hex, unhex};
@@ -39,11 +39,16 @@ impl RequestHandler for H {
 
 async fn run_case(line: String, decode: DecodeLevel) -> String {
     let parts: Vec<&str> = line.split_whitespace().collect();
+    let framing = match parts[0] {
+        "tcp" => Framing::Tcp,
+        "rtu" => Framing::RtuRequest,
+        f => panic!("bad framing {f:?}"),
+    };
     let wire = Wire::new();
-    for c in &parts[1..] {
+    for c in &parts[2..] {
         wire.push(&unhex(c));
     }
-    match parts[0] {
+    match parts[1] {
         "eof" => wire.set_eof(),
         "err" => wire.set_read_error(std::io::ErrorKind::ConnectionReset),
         _ => {}
@@ -54,7 +59,7 @@ async fn run_case(line: String, decode: DecodeLevel) -> String {
     map.add(UnitId::new(2), H { calls: calls.clone() }.wrap());
     let (_tx, rx) = tokio::sync::mpsc::channel(1);
     let end = tokio::select! {
-        e = run_server_session(Box::new(wire.clone()), map, None, Framing::RtuRequest, decode, rx) => super::frames::show_error(&e),
+        e = run_server_session(Box::new(wire.clone()), map, None, framing, decode, rx) => super::frames::show_error(&e),
         _ = async { for _ in 0..20 { crate::wire::settle().await; } } => "Pending".to_string(),
     };
     let out = wire.take_out();
@@ -72,7 +77,7 @@ pub fn main(args: &[String]) -> i32 {
         });
         match res {
             Ok(s) => println!("{s}"),
-            Err(_) => println!("PANIC"),
+            Err(e) => println!("{}", crate::util::panic_name(&e)),
         }
     }
     0
